@@ -94,7 +94,7 @@ theorem Q_add (a : E) (hq : ∀ h ∈ toList a, Q h) : Q (.add a) := by
 theorem Q_and (a : E) (hq : ∀ h ∈ toList a, Q h) : Q (.and a) := by
   refine Or.inr (fun s hw hst => ?_)
   simp only [wf, Bool.and_eq_true, beq_iff_eq] at hw
-  obtain ⟨⟨rfl, hl⟩, hwa⟩ := hw
+  obtain ⟨⟨⟨rfl, hl⟩, hwa⟩, _⟩ := hw
   simp only [pr] at hst ⊢
   split at hst
   · cases hst
@@ -114,7 +114,7 @@ theorem Q_and (a : E) (hq : ∀ h ∈ toList a, Q h) : Q (.and a) := by
 theorem Q_or (a : E) (hq : ∀ h ∈ toList a, Q h) : Q (.or a) := by
   refine Or.inr (fun s hw hst => ?_)
   simp only [wf, Bool.and_eq_true, beq_iff_eq] at hw
-  obtain ⟨⟨rfl, hl⟩, hwa⟩ := hw
+  obtain ⟨⟨⟨rfl, hl⟩, hwa⟩, _⟩ := hw
   simp only [pr] at hst ⊢
   split at hst
   · cases hst
